@@ -54,6 +54,9 @@ def decls(rng, varnames, force_color=None):
             val = val + " /* was: brand */"      # a comment inside the value of the colour declaration
         if rng.random() < 0.12:
             parts.append("color: %s" % rng.choice(LITERAL_TEXT))    # repeated declaration: the last one wins
+        if rng.random() < 0.15 and not val.startswith("var("):
+            # the text 'color: <same value>' ahead of the real declaration: inside another property's name, or in a comment
+            parts.append(rng.choice(["border-color: %s", "outline-color:%s", "-webkit-text-stroke-color: %s", "/* was color: %s */ margin: 0"]) % val)
         parts.append("%s:%s%s%s" % (name, rng.choice(["", " ", "  "]), val, imp))
     if rng.random() < 0.55:
         bgname = "background-color" if rng.random() < 0.93 else "BACKGROUND-COLOR"
